@@ -199,6 +199,17 @@ def _check_world(case, vs, ls, query_only):
                         continue
                     cnt = sum(1 for x in nb if x is vs[b])
                     require(len(got) == cnt, "count-vs-neighbors", f"{where}: {len(got)} links but v{b} occurs {cnt}x in neighbors(v{a})")
+    if case["f"] is None:
+        # omitted arguments: the documented defaults are direction_sensitive=True, LNK_UNKNOWN_ERROR, no filter
+        for a in idx:
+            for b in idx:
+                try:
+                    got = frozenset(li.get(id(l), "?") for l in helpers.find_links(vs[a], vs[b]))
+                except NotImplementedError:
+                    got = "NIE"
+                exp = table[(a, b, True, ERROR)]
+                require(got == exp, "defaults-mismatch", f"find_links(v{a}, v{b}) with the remaining arguments omitted gives {got if got == 'NIE' else sorted(got)}; with the documented defaults spelled out {exp if exp == 'NIE' else sorted(exp)}")
+        classes.add("arguments-omitted")
     if query_only:
         return dict(nt=nt, classes=sorted(classes))
     if case["g"].get("eq"):
